@@ -32,6 +32,8 @@ class SimProcess:
         self.info = {}
         if parent is not None:
             parent.children.append(self)
+            if getattr(parent, "cwd", None) is not None:
+                self.cwd = parent.cwd
         world.procs.append(self)
 
     def __repr__(self):
@@ -200,6 +202,31 @@ def _listdir(path="."):
     return sorted(names, key=lambda n: hashlib.blake2b(f"{w.listdir_seed}:{n}".encode(), digest_size=8).digest())
 
 
+def _chdir(path):
+    # the working directory belongs to the calling *simulated* process (when the run models it: sched.cwd_model)
+    _real["chdir"](path)
+    t = _cur_task()
+    w = WORLD
+    if t is not None and t.proc is not None and w is not None and w.sched.cwd_model:
+        t.proc.cwd = w.sched.cwd_now = _real["getcwd"]()
+
+
+def cwd_model_on(world):
+    """from now on every simulated process has its own working directory (children inherit at spawn)"""
+    s = world.sched
+    here = _real["getcwd"]()
+    for p in world.procs:
+        p.cwd = here
+    s.real_chdir = _real["chdir"]
+    s.cwd_now = here
+    s.cwd_model = True
+
+
+def cwd_model_off(world, back_to):
+    world.sched.cwd_model = False
+    _real["chdir"](back_to)
+
+
 def _interrupt_main(signum=SIGINT):
     # _thread.interrupt_main(): "simulate the effect of a signal arriving in the main thread" - of the calling
     # *simulated* process, never of the checker itself
@@ -220,6 +247,9 @@ def install_os_wrappers():
     _real["listdir"] = os.listdir
     os.listdir = _listdir
     _real["kill"] = os.kill
+    _real["chdir"] = os.chdir
+    _real["getcwd"] = os.getcwd
+    os.chdir = _chdir
     _real["_exit"] = os._exit
     _real["getpid"] = os.getpid
     os.kill = _kill
